@@ -388,8 +388,8 @@ func (fr *frame) exec(instr ssa.Instruction) {
 			panic(unsupported(fmt.Sprintf("FieldAddr on %T in %s", *p, fr.fn)))
 		}
 		q := &s[in.Field]
-		if e.job.Threads {
-			if st, ok := in.X.Type().Underlying().(*types.Pointer).Elem().Underlying().(*types.Struct); ok {
+		if st, ok := in.X.Type().Underlying().(*types.Pointer).Elem().Underlying().(*types.Struct); ok {
+			if e.job.Threads || isSyncType(st.Field(in.Field).Type()) {
 				e.cellName[q] = typeName(in.X.Type().Underlying().(*types.Pointer).Elem()) + "." + st.Field(in.Field).Name()
 			}
 		}
@@ -486,6 +486,11 @@ func (fr *frame) exec(instr ssa.Instruction) {
 	default:
 		panic(unsupported(fmt.Sprintf("instruction %T in %s", instr, fr.fn)))
 	}
+}
+
+func isSyncType(t types.Type) bool {
+	n, ok := t.(*types.Named)
+	return ok && n.Obj().Pkg() != nil && n.Obj().Pkg().Path() == "sync"
 }
 
 func typeName(t types.Type) string {
